@@ -28,7 +28,7 @@ def anchored():
 def main(tags):
     anc = anchored()
     for tag in tags:
-        base = "/tmp/harm_%s/out" % tag
+        base = "/tmp/harm%s_%s/out" % (os.environ.get("HARM_ROUND", ""), tag)
         for n in sorted(os.listdir(base)):
             src = os.path.join(base, n)
             if not os.path.isfile(os.path.join(src, "patch.diff")):
@@ -47,7 +47,7 @@ def main(tags):
                 if not (m and int(m.group(1)) == 62 and failed == ["tests/test_cgi.py::CGIHandlerTests::test_server"]):
                     print(tag, n, "REJECTED: tests", tail); continue
                 props = sorted({p for f in files.split() for p in anc.get(f, [])})
-                dst = os.path.join(ROOT, "seeded", "harmless-%s-%s" % (tag, n))
+                dst = os.path.join(ROOT, "seeded", "harmless%s-%s-%s" % (os.environ.get("HARM_ROUND", ""), tag, n))
                 os.makedirs(dst, exist_ok=True)
                 shutil.copy(os.path.join(src, "patch.diff"), dst)
                 meta = {}
